@@ -42,6 +42,24 @@ func layCRLF(lay json.RawMessage) bool {
 	return json.Unmarshal(lay, &l) == nil && l.Crlf
 }
 
+// layThanos: the group header of the layout uses a key of the Thanos rule schema.
+func layThanos(lay json.RawMessage) bool {
+	var l struct {
+		Ghdr []struct {
+			K string `json:"k"`
+		} `json:"ghdr"`
+	}
+	if json.Unmarshal(lay, &l) != nil {
+		return false
+	}
+	for _, g := range l.Ghdr {
+		if g.K == "prs" {
+			return true
+		}
+	}
+	return false
+}
+
 // strictable: the layout is a plain strict rule file (no wrapper), so diagnostics are collected in strict mode;
 // every other layout is linted in relaxed mode.
 func strictable(lay json.RawMessage) bool {
@@ -217,7 +235,11 @@ func newC06Linter() (*c06Linter, error) {
 	return l, nil
 }
 
-func (l *c06Linter) diags(file []string, strict, crlf bool, out *[]c06Diag) (perr string) {
+func (l *c06Linter) diags(file []string, strict, crlf, thanos bool, out *[]c06Diag) (perr string) {
+	schema := parser.PrometheusSchema
+	if thanos {
+		schema = parser.ThanosSchema
+	}
 	defer func() {
 		if r := recover(); r != nil {
 			perr = fmt.Sprintf("panic: %v\n%s", r, debug.Stack())
@@ -241,7 +263,7 @@ func (l *c06Linter) diags(file []string, strict, crlf bool, out *[]c06Diag) (per
 		relaxed = []*regexp.Regexp{regexp.MustCompile(".*")}
 	}
 	l.mu.Lock()
-	entries, err := discovery.NewGlobFinder([]string{path}, git.NewPathFilter(nil, nil, relaxed), parser.PrometheusSchema,
+	entries, err := discovery.NewGlobFinder([]string{path}, git.NewPathFilter(nil, nil, relaxed), schema,
 		model.UTF8Validation, l.cfg.Owners.CompileAllowed()).Find()
 	l.mu.Unlock()
 	if err != nil {
@@ -302,14 +324,14 @@ func init() {
 				r.LineLen = append(r.LineLen, len(l))
 			}
 			crlf := layCRLF(cs.Lay)
-			r.Strict = layout.ParseEOL(file, true, crlf)
+			r.Strict = layout.ParseWith(file, true, crlf, layThanos(cs.Lay))
 			r.Relaxed = layout.ParseEOL(file, false, crlf)
 			if a, b := mustJSON(r.Strict), mustJSON(r.Relaxed); a == b {
 				r.Same = true
 				r.Relaxed = layout.File{Groups: []layout.Group{}, Flat: []layout.Rule{}}
 			}
 			if !nodiag {
-				r.LintPanic = lint.diags(file, r.Strict.Err == "" && strictable(cs.Lay), crlf, &r.Diags)
+				r.LintPanic = lint.diags(file, r.Strict.Err == "" && strictable(cs.Lay), crlf, layThanos(cs.Lay), &r.Diags)
 			}
 			recs[i] = r
 		})
